@@ -11,3 +11,7 @@ func makeRootScheduled(t *Mast, st *vStore) (r *Root, err error, writesInFlightA
 	verifSched(false)
 	return r, err, st.started != st.completed
 }
+
+// The engine runs one goroutine at a time, so the recording store needs no lock there.
+func storeLock(s *vStore)   {}
+func storeUnlock(s *vStore) {}
